@@ -48,6 +48,12 @@ func (e *Env) evalLoc(x ast.Expr) []locRef {
 		base := e.eval(n.X)
 		obj, path, _ := types.LookupFieldOrMethod(base.T, true, e.pkgOfType(base.T), n.Sel.Name)
 		if _, ok := obj.(*types.Var); !ok {
+			if alias := fieldAlias(base.T, n.Sel.Name); alias != "" {
+				renamedFields[n.Sel.Name+" is now "+alias+" in "+types.TypeString(base.T, nil)] = true
+				obj, path, _ = types.LookupFieldOrMethod(base.T, true, e.pkgOfType(base.T), alias)
+			}
+		}
+		if _, ok := obj.(*types.Var); !ok {
 			evalFail("modifies: no field %s", n.Sel.Name)
 		}
 		cur, curT := base.V, base.T
